@@ -1,4 +1,6 @@
+mod expmodels;
 mod export;
+mod fittrace;
 mod lattice;
 mod mbuilder;
 mod pbuilder;
@@ -29,6 +31,12 @@ fn main() {
                 replay_flavour: arg_after(&args, "--flavour"),
             };
             lattice::run(path, &opts)
+        }
+        "fittrace" => {
+            let mode = args.get(2).expect("mode");
+            let out = args.get(3).expect("output file");
+            let count: usize = args.get(4).map(|s| s.parse().expect("count")).unwrap_or(100);
+            fittrace::run(mode, out, count)
         }
         "stationary" => stationary::run(args.get(2).expect("export file")),
         "model" => vmodel::run(args.get(2).expect("export file")),
